@@ -19,7 +19,11 @@ prop("C02", True,
      "Structural necessary conditions: (R1) the on-segment and the ray test each see exactly the closed ring (chain 0..len-2 plus the closing pair) of every ring; (R2) OnEdge is returned at once, crossings toggle an even-odd status across rings and member polygons, rings are skipped only for len<3 or by the box pre-filter; (R3) the pre-filter is the closed-box test of the ring's own bounds (never skips a point in or on the box; exhaustive over orderings); (R4) the vertex-wise receivers visit everything and return Outside exactly on an Outside vertex; (R5) every answer the two segment predicates give by comparisons alone equals the order-level geometric truth, for all 169 orderings of {p,a,b} per predicate (either perturbation convention). Thin by nature: the final slope comparisons are arithmetic and not decided.",
      "Not decided: the slope comparisons of rayIntersectsSegment/pointOnSegment (division, rounding), i.e. the classification of points that survive the order-level exits; the caller in area() that passes a reduced polygon with reduced bounds. One reviewed exception in R4: Polygon.Within returns OnEdge for deeply-equal operands.",
      None)
-prop("C03", False, "", "", "", NOT_YET)
+prop("C03", True,
+     "affine loop/index analysis (segment pair sets), polynomial expansion of fold summands, a parity type system (zero/even/odd/mixed under ring reversal) evaluated by path-sensitive AST dataflow with callee summaries",
+     "Structural necessary conditions: (R1) every fold over consecutive vertices reachable from Area/Length/Distance/Centroid (geom and op) visits the right pair set — shoelace: chain 0..len-2 plus a closing term that equals the loop's own summand at (last, first), behind an empty-ring guard; Length/Distance/centroid loops: the open chain; (R2) orientation parity: Area results are even; Polygon/op Centroid even under global reversal; MultiPolygon.Centroid even under reversal of any single ring (odd/even decided by expanding each summand to a polynomial and comparing with its vertex swap); (R3) member aggregation is a full-range + from 0 / min from +Inf. These are exactly the clauses 'whatever the winding / start vertex / closed-or-not spelling' that tests sample and this decides for all paths.",
+     "Not decided: floating-point accuracy, hole detection by point-in-polygon inside area(), Buffer's trigonometry, numerical agreement of op.* with the root package. Recursive calls (op.Area over nested collections) are assumed even and confirmed by the outer result.",
+     None)
 prop("C04", True,
      "abstract interpretation over the order domain (all weak orderings of the coordinates, exhaustive) + affine loop analysis + path-sensitive guard-freshness dataflow in the iterator closures",
      "Decides structural necessary conditions on every path/ordering: (R1) Extend/extendPoint are the lattice join with nil/empty operands as identities, NewBounds is the join identity, Overlaps/Empty/Copy and box-box Intersection match their order-level specification for every weak ordering of the eight coordinates incl. the canonical empty box; "
